@@ -82,6 +82,10 @@ fn from_nix_error(err: nix::Error) -> ::std::io::Error {
     std::io::Error::from_raw_os_error(err as i32)
 }
 
+// set in `io_flag` by the timeout handler (no epoll event uses this bit)
+#[cfg(feature = "io_timeout")]
+const IO_FLAG_TIMEOUT: usize = 1 << 30;
+
 #[cfg(feature = "io_timeout")]
 fn timeout_handler(data: TimerData) {
     if data.event_data.is_null() {
@@ -91,6 +95,12 @@ fn timeout_handler(data: TimerData) {
     let event_data = unsafe { &mut *data.event_data };
     // remove the event timer
     event_data.timer.borrow_mut().take();
+
+    // `subscribe` arms the timer before it publishes the coroutine: if the timer fires in between, the `take` below finds
+    // nothing and the time-out would be lost (the operation then blocks for ever). Raise the flag first – the same
+    // register-then-recheck handshake as for epoll events: `subscribe` re-reads `io_flag` after `co.store` and re-runs the
+    // coroutine, which tries again and arms a fresh timer.
+    event_data.io_flag.fetch_or(IO_FLAG_TIMEOUT, Ordering::Release);
 
     // get and check the coroutine
     let mut co = match event_data.co.take() {
